@@ -121,7 +121,7 @@ func init() {
 }
 
 func checkC05(c *core.Ctx) {
-	c.Explainf("C05 (decided clauses). R1: every iohelp stream reader reads exactly the width of its wire type through io.ReadFull on the ErrorReader, whose Read is itself io.ReadFull on the underlying reader — chunking is absorbed in one place. R2: nothing but ErrorReader.Read, Drain and the constructor touches the underlying reader; no emitted decoder reads r.Reader other than to install/restore the limiter. R2c: the constructor stores the caller's reader itself — nothing that reads ahead (bufio) is put in between. R3: limiter typestate of every emitted message/union DecodeBebop: the limiter is installed over the saved base reader, Drain happens only while limited, every `return r.Err` happens after the base reader is restored, and none is taken between reading the length prefix and consuming the body it announces (other than for a prefix of zero). R4: struct decoders install no limiter. R5: the Make<T>(r) wrappers of records with framing always decode. NOT decided: 'consumed == Size() of the decoded value' (false by design when deprecated/unknown fields are on the wire); readers that violate the io.Reader contract.")
+	c.Explainf("C05 (decided clauses). R1: every iohelp stream reader reads exactly the width of its wire type through io.ReadFull on the ErrorReader, whose Read is itself io.ReadFull on the underlying reader — chunking is absorbed in one place. R2: nothing but ErrorReader.Read, Drain and the constructor touches the underlying reader; no emitted decoder reads r.Reader other than to install/restore the limiter. R2c: the constructor stores the caller's reader itself — nothing that reads ahead (bufio) is put in between. R3: limiter typestate of every emitted message/union DecodeBebop: the limiter is installed over the saved base reader, Drain happens only while limited, every `return r.Err` happens after the base reader is restored, and none is taken between reading the length prefix and consuming the body it announces (other than for a prefix of zero). R4: struct decoders install no limiter. R5: the Make<T>(r) wrappers of records with framing always decode. R2d: Drain takes the rest of a bounded region with a read that absorbs short reads (io.Copy, io.ReadFull, or a loop), never below the limiter, and a loop in it ends exactly when a read fails. NOT decided: 'consumed == Size() of the decoded value' (false by design when deprecated/unknown fields are on the wire); readers that violate the io.Reader contract.")
 	gr := startGen(c)
 	if gr == nil {
 		return
@@ -129,6 +129,7 @@ func checkC05(c *core.Ctx) {
 	iohelpStreamWidths(c, gr.p, "R1")
 	iohelpLatchRules(c, gr.p, "-", "R2", "-", "-")
 	iohelpCtorDirect(c, gr.p, "R2c")
+	iohelpDrain(c, gr.p, "R2d", false)
 	dropRules(c, "-")
 	for _, rf := range gr.ga.Recs {
 		sr := rf.M[mSR]
